@@ -259,6 +259,29 @@ def common(ctx, prop):
             else:
                 r.update(again)
     rejected = validate(ctx, results)
+    if not ctx.quick and ctx.replay_only is None:
+        # binding self-test on a copy: a Start moved before the End of one of its dependencies must be rejected
+        for r in results:
+            if r["hung"] or r in rejected:
+                continue
+            recs = [dict(x) for x in r["recs"]]
+            ends = [i for i, x in enumerate(recs) if x["ev"] == "End" and x.get("rc") == 0]
+            done = False
+            for i in ends:
+                t = recs[i]["t"]
+                later = [j for j, x in enumerate(recs) if j > i and x["ev"] == "Start" and t in recs[0]["deps"].get(x["t"], [])]
+                if later:
+                    j = later[0]
+                    moved = recs.pop(j)
+                    recs.insert(i, moved)
+                    ok, hw, _ = vlib.validate_trace(ctx, "TraceSched", "TraceSched.cfg", recs, dfs=False)
+                    if ok:
+                        raise vlib.Infra("binding self-test failed: a corrupted trace was accepted")
+                    ctx.extra["binding_selftest"] = "rejected (Start moved before its dependency's End)"
+                    done = True
+                    break
+            if done:
+                break
     for r in rejected:
         sig = classify(r)
         if sig.startswith(prop):
